@@ -16,7 +16,7 @@ use std::process::{Command, Stdio};
 use std::sync::{Arc, Mutex, RwLock};
 use std::time::{Duration, Instant};
 
-pub const SCENARIOS: [&str; 9] = ["small", "sizes", "logs", "logs-nothread", "shutdown", "bgerr", "keeplogs", "errfull", "exact"];
+pub const SCENARIOS: [&str; 10] = ["small", "sizes", "logs", "logs-nothread", "shutdown", "bgerr", "keeplogs", "errfull", "exact", "quiesce"];
 
 #[derive(Clone, Debug)]
 struct Cfg {
@@ -30,7 +30,8 @@ struct Cfg {
 fn gen_cfg(seed: u64, thorough: bool) -> Cfg {
 	let mut rng = Rng::new(seed);
 	let scenario = match rng.below(if thorough { 22 } else { 18 }) {
-		0..=3 => "small",
+		0..=2 => "small",
+		3 => "quiesce",
 		4..=6 => "sizes",
 		7..=8 => "logs",
 		9 => "logs-nothread",
@@ -52,6 +53,11 @@ fn gen_cfg(seed: u64, thorough: bool) -> Cfg {
 	};
 	match scenario {
 		"logs" => c.always_flush = true,
+		"quiesce" => {
+			// every log file is reclaimed only with sync_data (otherwise KEEP_LOGS files stay dirty)
+			c.always_flush = true;
+			c.sync_data = true;
+		},
 		"logs-nothread" => {
 			c.threads = false;
 			c.always_flush = true;
@@ -406,6 +412,103 @@ pub fn child_main(args: &[String]) -> i32 {
 			drop(db);
 			out.line(&format!("drop {}", t0.elapsed().as_millis()));
 		},
+		"quiesce" => {
+			// The pipeline drains WITHOUT further client activity and without a drop: the commit
+			// worker is stalled (a parked value iteration holds the lock enact_logs needs) while a
+			// backlog of flushed log files builds up (one file per paced commit), then the iteration
+			// is released and the client goes quiet.  All log files must be reclaimed (length 0)
+			// within the bound.
+			let db = Arc::new(db);
+			let mut pool = vec![];
+			for idx in 0..3u64 {
+				let tx = make_tx(&mut rng, 0, idx, "small", &mut pool);
+				out.line(&format!("begin commit 0 {} small", idx));
+				if do_commit(&db, &tx).is_ok() {
+					record(&expect, &tx);
+				}
+				out.line(&format!("commit 0 {} small 0 ok", idx));
+			}
+			// wait until something is enacted (the iteration needs a stored value to call back on)
+			let t0 = Instant::now();
+			loop {
+				let mut found = false;
+				let _ = db.iter_column_while(0, |_| {
+					found = true;
+					false
+				});
+				if found || t0.elapsed() > Duration::from_secs(10) {
+					break
+				}
+				std::thread::sleep(Duration::from_millis(5));
+			}
+			let parked = Arc::new(std::sync::atomic::AtomicBool::new(false));
+			let release = Arc::new(std::sync::atomic::AtomicBool::new(false));
+			let it = {
+				let (db, parked, release) = (db.clone(), parked.clone(), release.clone());
+				std::thread::spawn(move || {
+					let _ = db.iter_column_while(0, |_| {
+						parked.store(true, std::sync::atomic::Ordering::SeqCst);
+						while !release.load(std::sync::atomic::Ordering::SeqCst) {
+							std::thread::sleep(Duration::from_millis(1));
+						}
+						false
+					});
+				})
+			};
+			let t0 = Instant::now();
+			while !parked.load(std::sync::atomic::Ordering::SeqCst) && t0.elapsed() < Duration::from_secs(5) {
+				std::thread::sleep(Duration::from_millis(1));
+			}
+			out.line(&format!("parked {}", parked.load(std::sync::atomic::Ordering::SeqCst)));
+			let backlog = rng.range(6, 26);
+			for idx in 3..3 + backlog {
+				let tx = make_tx(&mut rng, 0, idx, "small", &mut pool);
+				out.line(&format!("begin commit 0 {} small", idx));
+				let t0 = Instant::now();
+				match do_commit(&db, &tx) {
+					Ok(()) => {
+						record(&expect, &tx);
+						out.line(&format!("commit 0 {} small {} ok", idx, t0.elapsed().as_millis()));
+					},
+					Err(e) => out.line(&format!("commit 0 {} small {} err:{}", idx, t0.elapsed().as_millis(), err_kind(&e))),
+				}
+				std::thread::sleep(Duration::from_millis(6));
+			}
+			release.store(true, std::sync::atomic::Ordering::SeqCst);
+			let _ = it.join();
+			out.line("begin quiet");
+			let pending = |dir: &Path| -> usize {
+				std::fs::read_dir(dir)
+					.map(|d| {
+						d.filter_map(|e| e.ok())
+							.filter(|e| e.file_name().to_string_lossy().starts_with("log") && e.metadata().map(|m| m.len() > 0).unwrap_or(false))
+							.count()
+					})
+					.unwrap_or(0)
+			};
+			let t0 = Instant::now();
+			let mut left = pending(&dir);
+			while left > 0 && t0.elapsed() < Duration::from_secs(12) {
+				std::thread::sleep(Duration::from_millis(20));
+				left = pending(&dir);
+				if t0.elapsed().as_millis() % 1000 < 25 {
+					out.line("quiet waiting");
+				}
+			}
+			out.line(&format!("quiet {} {}", t0.elapsed().as_millis(), left));
+			if left > 0 {
+				out.line(&format!(
+					"FAIL quiesce: {} log file(s) still hold records {} ms after the client went quiet (backlog of {} flushed log files behind a stalled commit worker)",
+					left,
+					t0.elapsed().as_millis(),
+					backlog
+				));
+			}
+			out.line("begin drop");
+			let t0 = Instant::now();
+			drop(Arc::try_unwrap(db).ok().unwrap());
+			out.line(&format!("drop {}", t0.elapsed().as_millis()));
+		},
 		"logs-nothread" => {
 			// No workers: the client drives the stages and never calls clean_logs.  More than
 			// MAX_LOG_FILES fully-read log files exist when the handle is dropped with one more
@@ -600,7 +703,19 @@ pub fn run(seeds: &[u64], thorough: bool, root: &Path, t: &mut Trace, ctr: &mut 
 	// observed: whole scenarios take 0.1 .. 3 s on tmpfs; a single call far below 1 s.
 	let bound = Duration::from_secs(if thorough { 120 } else { 60 });
 	let mut confirmed_hangs: Vec<(&'static str, bool)> = vec![];
-	for seed in seeds.iter().copied() {
+	for (i, seed) in seeds.iter().copied().enumerate() {
+		// a run of many cases contains the rare directed scenarios for certain: every tenth case
+		// moves to the next seed whose scenario is `quiesce` / `exact` (the adjusted seed is printed)
+		let mut seed = seed;
+		if seeds.len() >= 10 && (i % 10 == 3 || i % 10 == 8) {
+			let want = if i % 10 == 3 { "quiesce" } else { "exact" };
+			for j in 0..400 {
+				if gen_cfg(seed + j, thorough).scenario == want {
+					seed += j;
+					break
+				}
+			}
+		}
 		let c = gen_cfg(seed, thorough);
 		if confirmed_hangs.iter().any(|(sc, _)| *sc == c.scenario) || confirmed_hangs.len() >= 2 {
 			// a hang costs two watchdog periods: one confirmed instance per scenario, two per run
